@@ -173,6 +173,40 @@ func toIndef(b []byte, n *Node, depth int) []byte {
 	return append(out, 0, 0)
 }
 
+// ToIndefiniteLevels re-encodes the constructed layers at depths [from, to)
+// (the outermost value is depth 0) with indefinite lengths; layers above them
+// keep definite lengths, recomputed for the longer content. from=1 gives the
+// BER shape "definite outside, indefinite inside".
+func ToIndefiniteLevels(der []byte, from, to int) ([]byte, error) {
+	n, err := Parse(der)
+	if err != nil {
+		return nil, err
+	}
+	return toIndefLevels(der, n, 0, from, to), nil
+}
+
+func toIndefLevels(b []byte, n *Node, depth, from, to int) []byte {
+	if depth >= to || !n.Constructed {
+		return b[n.Start:n.End]
+	}
+	var content []byte
+	for _, k := range n.Kids {
+		content = append(content, toIndefLevels(b, k, depth+1, from, to)...)
+	}
+	idLen := n.HdrLen - len(encLen(n.End-n.Start-n.HdrLen))
+	if idLen < 1 {
+		idLen = 1
+	}
+	out := append([]byte{}, b[n.Start:n.Start+idLen]...)
+	if depth >= from {
+		out = append(out, 0x80)
+		out = append(out, content...)
+		return append(out, 0, 0)
+	}
+	out = append(out, encLen(len(content))...)
+	return append(out, content...)
+}
+
 // NonMinimalLength re-encodes the outermost length in long form with one
 // superfluous leading zero octet (valid BER, invalid DER).
 func NonMinimalLength(der []byte) ([]byte, error) {
